@@ -1187,7 +1187,7 @@ class Atoms:
         new types will be added, but the newly added atoms, bonds, etc will refer to types by their
         value in the other Atoms object plus the offset. Use this when you are adding the same set
         of atoms multiple times, or if your other atoms already share the same type ids as this
-        object. For the later case, the tuple (0,0,0,0) may be passed in.
+        object. For the later case, the tuple (0,0,0,0,0) may be passed in.
 
         Args:
             other (Atoms): atoms to add to self
@@ -1301,7 +1301,7 @@ class Atoms:
         for ucmult in ucmults:
             transatoms = self.copy()
             transatoms.translate(np.matmul(transatoms.cell.T, ucmult))
-            repl_atoms.extend(transatoms, offsets=(0,0,0,0))
+            repl_atoms.extend(transatoms, offsets=(0,0,0,0,0))
 
         # scale each cell vector (row) by its own replication factor
         repl_atoms.cell = self.cell * np.reshape(repldims, (3, 1))
